@@ -60,7 +60,7 @@ def main():
                     print(f"{n}: patch does not apply: {out[:200]}", file=sys.stderr)
                 else:
                     meta["applies_to_head"] = True
-                    code, out = sh([os.path.join(VERIF, "check"), "all", "--no-write"], cwd=VERIF)
+                    code, out = sh([os.path.join(VERIF, "check"), "all", "--no-write", "--jobs", "16"], cwd=VERIF)
                     fired, undec = parse(out)
                     meta["checks_fired"] = fired
                     meta["checks_undecided"] = undec[:10]
